@@ -1224,6 +1224,25 @@ def conversion_sites(facts, units_suffix):
     return out
 
 
+def const_int(e):
+    e = strip_casts(e)
+    if e is None:
+        return None
+    if e.get('k') == 'int':
+        return e['v']
+    if e.get('k') == 'un' and e['op'] == '-':
+        v = const_int(e['e'])
+        return -v if v is not None else None
+    if e.get('k') == 'bin' and e['op'] in ('+', '-'):
+        a, b = const_int(e['l']), const_int(e['r'])
+        if a is None or b is None:
+            return None
+        return a + b if e['op'] == '+' else a - b
+    if e.get('k') == 'call' and (e.get('callee') or '') == 'std::numeric_limits<int>::max':
+        return 2147483647
+    return None
+
+
 def checked_conversion(gm, f, call):
     """the converted value flows into `v >= INT_MAX`-style test whose true branch records an error"""
     g = gm.cfg(f)
@@ -1240,7 +1259,7 @@ def checked_conversion(gm, f, call):
             c = strip_casts(cn.exprs[0])
             if c.get('k') == 'bin' and c['op'] in ('>=', '>'):
                 l, r = strip_casts(c['l']), strip_casts(c['r'])
-                lim = r.get('v') if r.get('k') == 'int' else None
+                lim = const_int(r)
                 if l.get('k') == 'ref' and l.get('d') == var and lim is not None:
                     bound_ok = (c['op'] == '>=' and lim <= 2147483647) or (c['op'] == '>' and lim <= 2147483646)
                     # true branch records an error
